@@ -7,7 +7,7 @@ import time
 
 HERE = os.path.dirname(os.path.dirname(os.path.abspath(__file__)))
 KNOWN = os.path.join(HERE, "KNOWN_FINDINGS.txt")
-EVID = os.path.join(HERE, "evidence")
+EVID = os.environ.get("VERIF_EVID") or os.path.join(HERE, "evidence")
 
 
 def load_known():
